@@ -19,6 +19,7 @@
 #include "pnotify.h"
 #include "panda_getopt_long.h"
 #include "preprocess_argv.h"
+#include "verif_trace.h"
 #include <time.h>
 
 using std::cerr;
@@ -467,9 +468,11 @@ main(int argc, char **argv) {
     case 'h':
     case CO_help:
       show_help();
+      VERIF_EVENT("{\"e\":\"Exit\",\"tool\":\"interrogate\",\"status\":0}");
       exit(0);
 
     default:
+      VERIF_EVENT("{\"e\":\"Exit\",\"tool\":\"interrogate\",\"status\":1}");
       exit(1);
     }
     flag = getopt_long_only(argc, argv, short_options, long_options, nullptr);
@@ -480,6 +483,7 @@ main(int argc, char **argv) {
 
   if (argc < 2) {
     show_usage();
+    VERIF_EVENT("{\"e\":\"Exit\",\"tool\":\"interrogate\",\"status\":1}");
     exit(1);
   }
 
@@ -487,6 +491,7 @@ main(int argc, char **argv) {
   if (source_file_directory != "") {
     if (!source_file_directory.chdir()) {
       cerr << "Could not change directory to " << source_file_directory << "\n";
+      VERIF_EVENT("{\"e\":\"Exit\",\"tool\":\"interrogate\",\"status\":1}");
       exit(1);
     }
   }
@@ -506,6 +511,7 @@ main(int argc, char **argv) {
       << "Cannot simultaneously export function names and report\n"
       << "true wrapper names--wrapper names will clash with the\n"
       << "wrapped functions!\n";
+    VERIF_EVENT("{\"e\":\"Exit\",\"tool\":\"interrogate\",\"status\":1}");
     exit(1);
   }
 
@@ -526,9 +532,12 @@ main(int argc, char **argv) {
   for (i = 1; i < argc; ++i) {
     Filename filename = Filename::from_os_specific(argv[i]);
     if (!parser.parse_file(filename)) {
+      VERIF_EVENT("{\"e\":\"ParseFile\",\"tool\":\"interrogate\",\"file\":" << VERIF_Q(argv[i]) << ",\"ok\":0,\"errors\":" << parser.get_error_count() << "}");
       cerr << "interrogate failed to parse file: '" << argv[i] << "'\n";
+      VERIF_EVENT("{\"e\":\"Exit\",\"tool\":\"interrogate\",\"status\":1}");
       exit(1);
     }
+    VERIF_EVENT("{\"e\":\"ParseFile\",\"tool\":\"interrogate\",\"file\":" << VERIF_Q(argv[i]) << ",\"ok\":1,\"errors\":" << parser.get_error_count() << "}");
     builder.add_source_file(filename.to_os_generic());
   }
 
@@ -553,6 +562,7 @@ main(int argc, char **argv) {
   }
 
   builder.build();
+  VERIF_EVENT("{\"e\":\"Built\",\"tool\":\"interrogate\"}");
 
   // Make up a file identifier.  This is just some bogus number that should be
   // the same in both the compiled-in code and in the database, so we can
@@ -627,6 +637,7 @@ main(int argc, char **argv) {
 
     std::ofstream output_code;
     output_code_filename.open_write(output_code);
+    VERIF_EVENT("{\"e\":\"OpenOutput\",\"ch\":\"oc\",\"ok\":" << (output_code.fail() ? 0 : 1) << "}");
 
     output_code << output_buffer_str;
 
@@ -646,6 +657,7 @@ main(int argc, char **argv) {
     } else {
       builder.write_code(output_code, the_output_include, def);
     }
+    VERIF_EVENT("{\"e\":\"WriterDone\",\"ch\":\"oc\",\"fail\":" << (output_code.fail() ? 1 : 0) << ",\"status\":" << status << "}");
   }
 
   if (the_output_include != nullptr) {
@@ -656,6 +668,7 @@ main(int argc, char **argv) {
   if (!output_data_filename.empty()) {
     std::ofstream output_data;
     output_data_filename.open_write(output_data);
+    VERIF_EVENT("{\"e\":\"OpenOutput\",\"ch\":\"od\",\"ok\":" << (output_data.fail() ? 0 : 1) << "}");
 
     if (output_data.fail()) {
       nout << "Unable to write to " << output_data_filename << "\n";
@@ -663,11 +676,13 @@ main(int argc, char **argv) {
     } else {
       InterrogateDatabase::get_ptr()->write(output_data, def);
     }
+    VERIF_EVENT("{\"e\":\"WriterDone\",\"ch\":\"od\",\"fail\":" << (output_data.fail() ? 1 : 0) << ",\"status\":" << status << "}");
   }
 
   if (!output_text_filename.empty()) {
     std::ofstream output_text;
     output_text_filename.open_write(output_text);
+    VERIF_EVENT("{\"e\":\"OpenOutput\",\"ch\":\"oh\",\"ok\":" << (output_text.fail() ? 0 : 1) << "}");
 
     if (output_text.fail()) {
       nout << "Unable to write to " << output_text_filename << "\n";
@@ -675,7 +690,9 @@ main(int argc, char **argv) {
     } else {
       InterrogateDatabase::get_ptr()->write_text(output_text);
     }
+    VERIF_EVENT("{\"e\":\"WriterDone\",\"ch\":\"oh\",\"fail\":" << (output_text.fail() ? 1 : 0) << ",\"status\":" << status << "}");
   }
 
+  VERIF_EVENT("{\"e\":\"Exit\",\"tool\":\"interrogate\",\"status\":" << status << "}");
   return status;
 }
